@@ -349,18 +349,31 @@ def run_node_origin(cx):
                     continue
                 sp.send(M.cea(name, other, auth=[4], hbh=cer[-1].h.hbh, e2e=cer[-1].h.e2e))
             h.settle()
-            sends = [("dwr", M.dwr(name, other, hbh=11, e2e=11)),
-                     ("app_unsupported", M.ccr(name, other, other, app=999, hbh=12, e2e=12)),
-                     ("realm_not_served", M.ccr(name, other, "nowhere.example", app=4, hbh=13, e2e=13)),
+            # identifiers at the ends of their range (0 is a legal value): the answer on the wire bears the request's
+            ids = {"dwr": (0, 11), "app_unsupported": (12, 0), "realm_not_served": (0xffffffff, 0xffffffff),
+                   "missing_avp": (14, 14), "application": (0, 0), "dwr2": (0xffffffff, 0), "dpr": (16, 0)}
+            sends = [("dwr", M.dwr(name, other, hbh=ids["dwr"][0], e2e=ids["dwr"][1])),
+                     ("app_unsupported", M.ccr(name, other, other, app=999, hbh=12, e2e=0)),
+                     ("realm_not_served", M.ccr(name, other, "nowhere.example", app=4, hbh=0xffffffff, e2e=0xffffffff)),
                      ("missing_avp", M.ccr(name, other, other, app=4, hbh=14, e2e=14, omit=("session_id",))),
-                     ("application", M.ccr(name, other, other, app=4, hbh=15, e2e=15)),
-                     ("dpr", M.dpr(name, other, hbh=16, e2e=16))]
+                     ("application", M.ccr(name, other, other, app=4, hbh=0, e2e=0)),
+                     ("dwr2", M.dwr(name, other, hbh=0xffffffff, e2e=0)),
+                     ("dpr", M.dpr(name, other, hbh=16, e2e=0))]
             for label, wire in sends:
+                seen_n = len(sp.frames)
                 try:
                     sp.send(wire)
                 except OSError:
                     break
                 h.settle()
+                sp.drain()
+                code = int.from_bytes(wire[5:8], "big")
+                back = [f for f in sp.frames[seen_n:] if not f.is_request and f.h.code == code]
+                cx.evals += 1
+                if len(back) != 1 or (back[0].h.hbh, back[0].h.e2e) != ids[label]:
+                    cx.witness("generated.header_not_mirrored.wire",
+                               {"what": label, "dir": direction, "request_ids": ids[label],
+                                "answers": [repr(f) for f in back]}, {"op": "node_origin"})
             sp.drain()
             for f in sp.frames:
                 what = ("request" if f.is_request else "answer") + f".{f.h.code}"
